@@ -39,7 +39,8 @@ def run(tier):
     items = []
     std = scripts.std_cfgs()
     for ci, cn in enumerate(cfgs):
-        scr, res = sesscheck.export_scripts(cn, 2, 2, 3 if thorough else 2)
+        deep = thorough and cn in ("v1", "v2c", "v3-md5", "v3-sha1-aes")       # three injections: 40k-110k behaviours per configuration
+        scr, res = sesscheck.export_scripts(cn, 2, 2, 3 if deep else 2)
         chk.add_tlc(res, "export %s" % cn)
         if thorough:
             scr3, res3 = sesscheck.export_scripts(cn, 3, 2, 2)
